@@ -22,6 +22,10 @@ REQUIRED_MONITORS = ["documents_parsed", "components_compared", "expression_node
 BUDGET = {"quick": 45, "thorough": 600}
 
 
+# literals that need 16 or 17 significant digits to survive a round trip
+LONG_LITERALS = [3.141592653589793, 0.30000000000000004, 1.0000000000000002, 2.718281828459045, 6.123233995736766e-17, 123456.78901234567]
+
+
 def gen_case(rng):
     tags = set()
     decls, names = [], []
@@ -38,6 +42,9 @@ def gen_case(rng):
         start = None
         if rng.random() < 0.4:
             start = rng.randint(0, 9) if typ == "Integer" else round(rng.uniform(0, 9), 2)
+            if typ == "Real" and rng.random() < 0.25:
+                start = rng.choice(LONG_LITERALS)
+                tags.add("literal:17-significant-digits")
             mods.append("start = %s" % start)
             tags.add("attr:start")
         if rng.random() < 0.15:
@@ -46,6 +53,9 @@ def gen_case(rng):
         value = None
         if var_ in ("parameter", "constant"):
             value = rng.randint(1, 9) if typ == "Integer" else round(rng.uniform(0.5, 9), 2)
+            if typ == "Real" and rng.random() < 0.25:
+                value = rng.choice(LONG_LITERALS)
+                tags.add("literal:17-significant-digits")
             val = " = %s" % value
         decls.append("  %s%s %s%s%s;" % (var_ + " " if var_ else "", typ, n, "(" + ", ".join(mods) + ")" if mods else "", val))
         names.append(n)
@@ -107,6 +117,9 @@ def gen_case(rng):
         tgt = var(rng.choice(reals))
         lhs = ("der", tgt) if rng.random() < 0.35 else tgt
         rhs = g.real(rng.randint(1, 3))
+        if rng.random() < 0.15:
+            rhs = ("bin", "+", rhs, num(rng.choice(LONG_LITERALS)))
+            tags.add("literal:17-significant-digits")
         if rng.random() < 0.2 and len(leaves) >= 2:
             # function calls with three and four arguments
             a3 = [rng.choice(leaves), rng.choice(leaves), num(round(rng.uniform(0.5, 3), 1))]
